@@ -120,3 +120,10 @@ const CyclesSpec = `{"openapi":"3.0.3","info":{"title":"t","version":"1"},"paths
  "Node":{"type":"object","required":["kids"],"properties":{"kids":{"type":"array","items":{"$ref":"#/components/schemas/Sum"}},"next":{"$ref":"#/components/schemas/Node"},"alt":{"$ref":"#/components/schemas/Sum"}}},
  "M":{"type":"object","additionalProperties":{"$ref":"#/components/schemas/M2"}},
  "M2":{"type":"object","properties":{"m":{"$ref":"#/components/schemas/M"},"s":{"type":"string","maxLength":3},"self":{"$ref":"#/components/schemas/M2"}}}}}}`
+
+// Oddities: documents that are valid and whose processing cost or code path is unusual: a wide
+// acyclic reference graph (every schema refers twice to the next: the number of paths doubles per
+// level, so every walk over the type graph has to remember what it has seen), enum values that start
+// with U+FFFD or other characters without an identifier form, custom security schemes used by
+// several operations, a nullable enum listing null.
+var Oddities = []string{`{"openapi": "3.0.3", "info": {"title": "t", "version": "1"}, "paths": {"/a": {"post": {"operationId": "a", "requestBody": {"content": {"application/json": {"schema": {"$ref": "#/components/schemas/A00"}}}}, "responses": {"200": {"description": "ok"}}}}}, "components": {"schemas": {"A00": {"type": "object", "properties": {"v": {"type": "string"}, "x": {"$ref": "#/components/schemas/A01"}, "y": {"$ref": "#/components/schemas/A01"}}}, "A01": {"type": "object", "properties": {"v": {"type": "string"}, "x": {"$ref": "#/components/schemas/A02"}, "y": {"$ref": "#/components/schemas/A02"}}}, "A02": {"type": "object", "properties": {"v": {"type": "string"}, "x": {"$ref": "#/components/schemas/A03"}, "y": {"$ref": "#/components/schemas/A03"}}}, "A03": {"type": "object", "properties": {"v": {"type": "string"}, "x": {"$ref": "#/components/schemas/A04"}, "y": {"$ref": "#/components/schemas/A04"}}}, "A04": {"type": "object", "properties": {"v": {"type": "string"}, "x": {"$ref": "#/components/schemas/A05"}, "y": {"$ref": "#/components/schemas/A05"}}}, "A05": {"type": "object", "properties": {"v": {"type": "string"}, "x": {"$ref": "#/components/schemas/A06"}, "y": {"$ref": "#/components/schemas/A06"}}}, "A06": {"type": "object", "properties": {"v": {"type": "string"}, "x": {"$ref": "#/components/schemas/A07"}, "y": {"$ref": "#/components/schemas/A07"}}}, "A07": {"type": "object", "properties": {"v": {"type": "string"}, "x": {"$ref": "#/components/schemas/A08"}, "y": {"$ref": "#/components/schemas/A08"}}}, "A08": {"type": "object", "properties": {"v": {"type": "string"}, "x": {"$ref": "#/components/schemas/A09"}, "y": {"$ref": "#/components/schemas/A09"}}}, "A09": {"type": "object", "properties": {"v": {"type": "string"}, "x": {"$ref": "#/components/schemas/A10"}, "y": {"$ref": "#/components/schemas/A10"}}}, "A10": {"type": "object", "properties": {"v": {"type": "string"}, "x": {"$ref": "#/components/schemas/A11"}, "y": {"$ref": "#/components/schemas/A11"}}}, "A11": {"type": "object", "properties": {"v": {"type": "string"}, "x": {"$ref": "#/components/schemas/A12"}, "y": {"$ref": "#/components/schemas/A12"}}}, "A12": {"type": "object", "properties": {"v": {"type": "string"}, "x": {"$ref": "#/components/schemas/A13"}, "y": {"$ref": "#/components/schemas/A13"}}}, "A13": {"type": "object", "properties": {"v": {"type": "string"}, "x": {"$ref": "#/components/schemas/A14"}, "y": {"$ref": "#/components/schemas/A14"}}}, "A14": {"type": "object", "properties": {"v": {"type": "string"}, "x": {"$ref": "#/components/schemas/A15"}, "y": {"$ref": "#/components/schemas/A15"}}}, "A15": {"type": "object", "properties": {"v": {"type": "string"}, "x": {"$ref": "#/components/schemas/A16"}, "y": {"$ref": "#/components/schemas/A16"}}}, "A16": {"type": "object", "properties": {"v": {"type": "string"}, "x": {"$ref": "#/components/schemas/A17"}, "y": {"$ref": "#/components/schemas/A17"}}}, "A17": {"type": "object", "properties": {"v": {"type": "string"}, "x": {"$ref": "#/components/schemas/A18"}, "y": {"$ref": "#/components/schemas/A18"}}}, "A18": {"type": "object", "properties": {"v": {"type": "string"}, "x": {"$ref": "#/components/schemas/A19"}, "y": {"$ref": "#/components/schemas/A19"}}}, "A19": {"type": "object", "properties": {"v": {"type": "string"}, "x": {"$ref": "#/components/schemas/A20"}, "y": {"$ref": "#/components/schemas/A20"}}}, "A20": {"type": "object", "properties": {"v": {"type": "string"}, "x": {"$ref": "#/components/schemas/A21"}, "y": {"$ref": "#/components/schemas/A21"}}}, "A21": {"type": "object", "properties": {"v": {"type": "string"}, "x": {"$ref": "#/components/schemas/A22"}, "y": {"$ref": "#/components/schemas/A22"}}}, "A22": {"type": "object", "properties": {"v": {"type": "string"}, "x": {"$ref": "#/components/schemas/A23"}, "y": {"$ref": "#/components/schemas/A23"}}}, "A23": {"type": "object", "properties": {"v": {"type": "string"}, "x": {"$ref": "#/components/schemas/A24"}, "y": {"$ref": "#/components/schemas/A24"}}}, "A24": {"type": "object", "properties": {"v": {"type": "string"}, "x": {"$ref": "#/components/schemas/A25"}, "y": {"$ref": "#/components/schemas/A25"}}}, "A25": {"type": "object", "properties": {"v": {"type": "string"}, "x": {"$ref": "#/components/schemas/A26"}, "y": {"$ref": "#/components/schemas/A26"}}}, "A26": {"type": "object", "properties": {"v": {"type": "string"}, "x": {"$ref": "#/components/schemas/A27"}, "y": {"$ref": "#/components/schemas/A27"}}}, "A27": {"type": "object", "properties": {"v": {"type": "string"}, "x": {"$ref": "#/components/schemas/A28"}, "y": {"$ref": "#/components/schemas/A28"}}}, "A28": {"type": "object", "properties": {"v": {"type": "string"}, "x": {"$ref": "#/components/schemas/A29"}, "y": {"$ref": "#/components/schemas/A29"}}}, "A29": {"type": "object", "properties": {"v": {"type": "string"}, "x": {"$ref": "#/components/schemas/A30"}, "y": {"$ref": "#/components/schemas/A30"}}}, "A30": {"type": "object", "properties": {"v": {"type": "string"}, "x": {"$ref": "#/components/schemas/A31"}, "y": {"$ref": "#/components/schemas/A31"}}}, "A31": {"type": "object", "properties": {"v": {"type": "string"}, "x": {"$ref": "#/components/schemas/A32"}, "y": {"$ref": "#/components/schemas/A32"}}}, "A32": {"type": "object", "properties": {"v": {"type": "string"}, "x": {"$ref": "#/components/schemas/A33"}, "y": {"$ref": "#/components/schemas/A33"}}}, "A33": {"type": "object", "properties": {"v": {"type": "string"}, "x": {"$ref": "#/components/schemas/A34"}, "y": {"$ref": "#/components/schemas/A34"}}}, "A34": {"type": "object", "properties": {"v": {"type": "string"}, "x": {"$ref": "#/components/schemas/A35"}, "y": {"$ref": "#/components/schemas/A35"}}}, "A35": {"type": "object", "properties": {"v": {"type": "string"}, "x": {"$ref": "#/components/schemas/A36"}, "y": {"$ref": "#/components/schemas/A36"}}}, "A36": {"type": "object", "properties": {"v": {"type": "string"}, "x": {"$ref": "#/components/schemas/A37"}, "y": {"$ref": "#/components/schemas/A37"}}}, "A37": {"type": "object", "properties": {"v": {"type": "string"}, "x": {"$ref": "#/components/schemas/A38"}, "y": {"$ref": "#/components/schemas/A38"}}}, "A38": {"type": "object", "properties": {"v": {"type": "string"}, "x": {"$ref": "#/components/schemas/A39"}, "y": {"$ref": "#/components/schemas/A39"}}}, "A39": {"type": "object", "properties": {"v": {"type": "string"}}}}}}`, `{"openapi": "3.0.3", "info": {"title": "t", "version": "1"}, "paths": {"/a": {"get": {"operationId": "a", "security": [{"CO": ["read"]}], "parameters": [{"name": "e", "in": "query", "schema": {"$ref": "#/components/schemas/E"}}], "responses": {"200": {"description": "ok", "content": {"application/json": {"schema": {"$ref": "#/components/schemas/N"}}}}}}}, "/b": {"get": {"operationId": "b", "security": [{"CO": ["write"]}, {"CK": []}], "responses": {"200": {"description": "ok", "content": {"application/json": {"schema": {"$ref": "#/components/schemas/E2"}}}}}}}}, "components": {"securitySchemes": {"CO": {"type": "oauth2", "x-ogen-custom-security": true, "flows": {"clientCredentials": {"tokenUrl": "https://x/t", "scopes": {"read": "r", "write": "w"}}}}, "CK": {"type": "apiKey", "in": "header", "name": "X-K", "x-ogen-custom-security": true}}, "schemas": {"E": {"type": "string", "enum": ["�a", "b", "-1", "1"]}, "E2": {"type": "string", "enum": ["�", "é", "", "a b", "A_B", "a-b"]}, "N": {"type": "string", "nullable": true, "enum": [null, "a", "b"]}}}}`}
